@@ -1,25 +1,229 @@
-//! C19 — not built yet (stub).
+//! C19 — rescoring only affects the rescore window.
+//! Finder (implementation only): the initial ranking (same request without rescore, limit
+//! covering everything) and the rescore query run on its own give per-document scores; the
+//! expected response is recomputed from them (window rescored by the documented combination,
+//! `min_score` rejects dropped, window re-sorted, rest unchanged) and compared with the real one.
+//! A mismatch is classified by re-running the request with `candidate_size` covering all
+//! matches (implementation only): if that repairs it, the cause is the fetch depth.
+//! Correspondence: `SL.Post.search` (mechanism model) vs the real response.
+use super::c18::common::*;
+use super::c18::{full_req, ranking_req};
 use crate::proto::Driver;
 use crate::rng::Rng;
 use crate::summary::Summary;
 use crate::{Prop, Tier};
 use serde_json::{json, Value};
+use std::collections::HashMap;
 
-pub struct Stub;
-pub static P: Stub = Stub;
+pub struct C19;
+pub static P: C19 = C19;
 
-impl Prop for Stub {
+fn combine(mode: &str, a: f32, r: f32) -> f32 {
+  match mode {
+    "multiply" => a * r,
+    "max" => a.max(r),
+    "min" => a.min(r),
+    _ => a + r,
+  }
+}
+
+/// does the page equal the expected page (ids in order, scores within tolerance)?
+fn page_eq(got: &[(String, f32)], want: &[(String, f32)]) -> bool {
+  got.len() == want.len() && got.iter().zip(want.iter()).all(|(a, b)| a.0 == b.0 && close32(a.1, b.1))
+}
+
+impl Prop for C19 {
   fn id(&self) -> &'static str {
     "C19"
   }
   fn rule(&self) -> &'static str {
-    "stub"
+    "case = random corpus (6..40 docs, 1..3 segments) + initial query (exact fast-field scores / constant / BM25) + rescore {window_size 0..limit+5 (sometimes 50), score_mode in total/multiply/sum/max/min, rescore query = function_score over a second fast field with optional min_score / filtered weight / BM25 term} + limit 1..10, optional candidate_size, sort (70% default), execution, explain; non-trivial = window_size > 0, at least 2 matches, and the rescore query changes or rejects at least one document of the window; distinct = distinct case JSON"
   }
-  fn count(&self, _tier: Tier) -> usize {
-    0
+  fn count(&self, tier: Tier) -> usize {
+    tier.pick(300, 10000)
   }
-  fn gen(&self, _rng: &mut Rng, _tier: Tier, _i: usize) -> Value {
-    json!(null)
+  fn gen(&self, rng: &mut Rng, _tier: Tier, _i: usize) -> Value {
+    let corpus = gen_corpus(rng, 6, 40);
+    let limit = 1 + rng.below(10);
+    let window = if rng.chance(1, 12) { 50 } else { rng.below(limit + 6) };
+    let mut req = json!({
+      "limit": limit,
+      "sort": if rng.chance(7, 10) { json!([]) } else { gen_sort(rng) },
+      "execution": gen_exec(rng),
+      "rescore": {"window_size": window, "score_mode": *rng.pick(&MODES), "query": gen_rescore_query(rng)},
+    });
+    if rng.chance(1, 5) {
+      req["candidate_size"] = json!(limit + rng.below(8));
+    }
+    if rng.chance(3, 20) {
+      req["explain"] = json!(true);
+    }
+    let query = gen_query(rng);
+    settle_exec(&query, &mut req);
+    json!({"corpus": corpus, "query": query, "filter": gen_filter(rng), "req": req})
   }
-  fn run_case(&self, _drv: &mut Driver, _case: &Value, _s: &mut Summary) {}
+
+  fn run_case(&self, drv: &mut Driver, case: &Value, s: &mut Summary) {
+    let built = match build(&case["corpus"]) {
+      Ok(b) => b,
+      Err(e) => {
+        s.disagree("harness.build", case, json!(e), json!(null));
+        return;
+      }
+    };
+    let lay = match layout(&built.reader, &case["corpus"]) {
+      Ok(l) => l,
+      Err(e) => {
+        s.disagree("harness.layout", case, json!(e), json!(null));
+        return;
+      }
+    };
+    let req = full_req(case);
+    let exec = req["execution"].as_str().unwrap_or("wand").to_string();
+    let plan = plan_json(&req["sort"]);
+    let rk = ranking_req(case, &req["sort"]);
+    let initial = match run(&built.reader, &rk) {
+      Ok(r) => r,
+      Err(e) => {
+        s.case(case, false);
+        s.count(&format!("ranking_error:{}", e.chars().take(40).collect::<String>()));
+        return;
+      }
+    };
+    let outcomes = match rescore_outcomes(&built.reader, &req["rescore"]["query"], &exec) {
+      Ok(o) => o,
+      Err(e) => {
+        s.case(case, false);
+        s.count(&format!("rescore_query_error:{}", e.chars().take(40).collect::<String>()));
+        return;
+      }
+    };
+    let resp = match run(&built.reader, &req) {
+      Ok(r) => r,
+      Err(e) => {
+        s.case(case, true);
+        s.fail("rescore.error", "request with rescore fails although both queries succeed on their own", case, json!(e));
+        return;
+      }
+    };
+    let w = req["rescore"]["window_size"].as_u64().unwrap_or(0) as usize;
+    let mode = req["rescore"]["score_mode"].as_str().unwrap_or("total").to_string();
+    let limit = req["limit"].as_u64().unwrap_or(1) as usize;
+    let top_k = top_k_of(&req);
+    let out_of = |id: &str| outcomes.get(id).cloned().unwrap_or(RescOut::NoMatch);
+
+    // ---------------- expected response (spec), from implementation runs only ----------------
+    let rank0: HashMap<String, usize> = initial.hits.iter().enumerate().map(|(i, h)| (h.doc_id.clone(), i)).collect();
+    let wn = w.min(initial.hits.len());
+    let mut win: Vec<OHit> = Vec::new();
+    let mut rejected = 0;
+    let mut changed = 0;
+    for h in &initial.hits[..wn] {
+      let base = OHit { id: h.doc_id.clone(), score: h.score, pos: lay.pos[&h.doc_id], flds: lay.flds[&h.doc_id].clone() };
+      match out_of(&h.doc_id) {
+        RescOut::NoMatch => win.push(base),
+        RescOut::Rejected => rejected += 1,
+        RescOut::Val(r) => {
+          let c = combine(&mode, h.score, r);
+          if c.to_bits() != h.score.to_bits() {
+            changed += 1;
+          }
+          win.push(OHit { score: c, ..base });
+        }
+      }
+    }
+    win.sort_by(|a, b| cmp_plan(&plan, a, b));
+    let mut expected: Vec<(String, f32)> = win.iter().map(|h| (h.id.clone(), h.score)).collect();
+    expected.extend(initial.hits[wn..].iter().map(|h| (h.doc_id.clone(), h.score)));
+    let want_page: Vec<(String, f32)> = expected.iter().take(limit).cloned().collect();
+    let want_next = expected.len() > limit;
+    let got: Vec<(String, f32)> = resp.hits.iter().map(|h| (h.doc_id.clone(), h.score)).collect();
+
+    let nontrivial = wn > 0 && initial.hits.len() >= 2 && (rejected > 0 || changed > 0);
+    s.case(case, nontrivial);
+    s.count(&format!("mode:{mode}"));
+    s.count(if w == 0 { "window:0" } else if w <= limit { "window:<=limit" } else if w <= top_k { "window:limit+1..top_k" } else { "window:>top_k" });
+    s.count(&format!("rejected_in_window:{}", rejected.min(3)));
+    s.count(&format!("segments:{}", lay.nseg));
+    s.count(if plan == json!([{"f":"score","desc":true}]) { "sort:score_fast" } else { "sort:other" });
+
+    // ---------------- finder ----------------
+    let ok = page_eq(&got, &want_page) && resp.next_cursor.is_some() == want_next;
+    if !ok {
+      // classification by a deep-fetch twin (implementation only): same request, limit and
+      // candidate_size covering every match, so rescore_hits sees the whole ranking
+      let deep = {
+        let mut r = req.clone();
+        r["candidate_size"] = json!(ALL);
+        r["limit"] = json!(ALL);
+        run(&built.reader, &r).ok()
+      };
+      let deep_all: Option<Vec<(String, f32)>> = deep.as_ref().map(|d| d.hits.iter().map(|h| (h.doc_id.clone(), h.score)).collect());
+      let deep_page: Option<Vec<(String, f32)>> = deep_all.as_ref().map(|d| d.iter().take(limit).cloned().collect());
+      let deep_ok = deep_all.as_ref().map(|d| page_eq(deep_page.as_ref().unwrap(), &want_page) && (d.len() > limit) == want_next).unwrap_or(false);
+      let obs = json!({"got": got, "expected": want_page, "got_next": resp.next_cursor.is_some(), "expected_next": want_next,
+        "page_with_full_fetch": deep_page, "window": w, "top_k": top_k, "matches": initial.hits.len(), "rejected_in_window": rejected,
+        "initial": initial.hits.iter().take(top_k.max(w).min(30) + 2).map(|h| (h.doc_id.clone(), h.score)).collect::<Vec<_>>()});
+      // a hit from behind the window placed before a hit of the window
+      let slides = |list: &[(String, f32)]| {
+        list.iter().enumerate().any(|(i, a)| rank0.get(&a.0).map(|r| *r >= wn).unwrap_or(false) && list[i + 1..].iter().any(|b| rank0.get(&b.0).map(|r| *r < wn).unwrap_or(false)))
+      };
+      if deep_ok && w > top_k && initial.hits.len() > top_k {
+        s.fail("rescore.window-beyond-fetched", "window_size exceeds the max(limit,candidate_size)+1 hits that are fetched before rescoring: hits of the window are neither rescored nor returned", case, obs);
+      } else if deep_ok && rejected > 0 {
+        s.fail("rescore.page-short-after-drops", "min_score removals are not refilled from beyond the fetched max(limit,candidate_size)+1 hits: page shorter than limit or next_cursor missing although more matches exist", case, obs);
+      } else if rejected > 0 && deep_all.as_ref().map(|g| slides(g)).unwrap_or(false) {
+        s.fail("rescore.tail-slides-into-window", "after min_score removals the re-sorted prefix is again window_size long, so hits that were never rescored are sorted in among the rescored ones", case, obs);
+      } else {
+        // which part of the statement fails, for the signature
+        let mut sig = "rescore.mismatch";
+        for (id, sc) in &got {
+          match rank0.get(id) {
+            None => sig = "rescore.hit-not-in-ranking",
+            Some(r) if *r < wn => match out_of(id) {
+              RescOut::Rejected => sig = "rescore.min-score-kept",
+              RescOut::NoMatch => {
+                if !close32(*sc, initial.hits[*r].score) {
+                  sig = "rescore.score";
+                }
+              }
+              RescOut::Val(v) => {
+                if !close32(*sc, combine(&mode, initial.hits[*r].score, v)) {
+                  sig = "rescore.score";
+                }
+              }
+            },
+            Some(r) => {
+              if !close32(*sc, initial.hits[*r].score) {
+                sig = "rescore.outside-window-changed";
+              }
+            }
+          }
+        }
+        s.fail(sig, "response differs from: window rescored by the documented combination, rejects dropped, window re-sorted, rest unchanged", case, obs);
+      }
+    }
+    // final_score of explanations
+    if req["explain"].as_bool().unwrap_or(false) {
+      for h in &resp.hits {
+        match &h.explanation {
+          Some(e) if e.final_score.to_bits() == h.score.to_bits() => {}
+          other => s.fail("rescore.explanation-final", "explanation missing or final_score differs from the hit score", case, json!({"hit": h.doc_id, "score": h.score, "final": other.as_ref().map(|e| e.final_score)})),
+        }
+      }
+    }
+
+    // ---------------- correspondence ----------------
+    let scores = match raw_scores(&built.reader, &rk, &initial) {
+      Ok(x) => x,
+      Err(e) => {
+        s.disagree("harness.raw_scores", case, json!(e), json!(null));
+        return;
+      }
+    };
+    let m = drv.call("C19", model_req(&req, &lay, model_hits(&lay, &scores, Some(&outcomes)), None, false));
+    if let Some(d) = compare(&m, &resp, &lay, total_is_exact(&req, &case["query"])) {
+      s.disagree("post.search", case, json!({"diff": d, "hits": got}), m);
+    }
+  }
 }
